@@ -10,7 +10,7 @@ Decided (structural necessary conditions; the relation parse(fmt(x)) ~ parse(x) 
   5 FLOATKIND  the Float literal arm renders through a float-preserving formatter
   6 LINESEP    every statement / declaration formatter ends its line (two statements never share a line)
 """
-from engines import (AST, adts_with_prefix, arm_regions, callee_generic, callee_name, const_str, cover,
+from engines import (AST, adts_with_prefix, arm_regions, body_and_closures, callee_generic, callee_name, const_str, cover,
                      discr_switches, enum_table, exhaust, guarded_results, is_span_field, op_place,
                      primary_dispatch, region_outputs, short, str_consts)
 from facts import iter_read_places, place_fields
@@ -127,6 +127,7 @@ def run(facts, rep, tier):
 
     # 4 ESCAPE
     escape(F, rep, fm)
+    source_identity(F, rep)
 
     # 5 FLOATKIND
     floatkind(F, rep)
@@ -250,6 +251,45 @@ def spell(F, rep):
                                     % (cands, v, sorted(back)), file=fs.file, line=best["ln"], fn=fs.path))
 
 
+def source_identity(F, rep):
+    """SRCTEXT — the formatter lexes exactly the text it was given: the argument of lexer::lex in
+    format_source_with_config is the function's own `source` parameter (through borrows / copies only). Any
+    pre-processing of the text (line-ending normalisation, trimming, case folding ...) changes the contents of
+    string literals before the formatter ever sees them."""
+    from engines import trace_local_source
+    f = F.one_fn("format::format_source_with_config")
+    if not rep.anchor("SRCTEXT", "format::format_source_with_config", f):
+        return
+    lex_calls = [(bi, t) for bi, t in f.calls() if (callee_name(t) or "").endswith("lexer::lex")]
+    if not rep.anchor("SRCTEXT", "call of lexer::lex in format_source_with_config", lex_calls):
+        return
+    for i, (bi, t) in enumerate(lex_calls):
+        pl = op_place(t["args"][0]) if t["args"] else None
+        src = trace_local_source(f, pl["l"]) if pl is not None else None
+        ok = src is not None and src[0] == "arg" and src[1] == 1
+        rep.oblige("SRCTEXT", "lex-argument#%d" % (i + 1), ok,
+                   sample={"rule": "SRCTEXT", "fn": f.path, "line": t.get("ln"), "lex_argument_origin": str(src)})
+        if not ok:
+            rep.add(Finding("SRCTEXT", "SRCTEXT|format_source_with_config|lex-argument",
+                            "format_source_with_config does not lex the `source` it was given but a value derived "
+                            "from it (%s): whatever that step rewrites — e.g. CRLF to LF — is also rewritten inside "
+                            "string literals, so the formatted program's literals differ from the original's"
+                            % (str(src),), file=f.file, line=t.get("ln"), fn=f.path))
+    # format_source forwards its parameter unchanged
+    g = F.one_fn("format::format_source")
+    if rep.anchor("SRCTEXT", "format::format_source", g):
+        for bi, t in g.calls():
+            if (callee_name(t) or "").endswith("format_source_with_config"):
+                pl = op_place(t["args"][0]) if t["args"] else None
+                src = trace_local_source(g, pl["l"]) if pl is not None else None
+                ok = src is not None and src[0] == "arg" and src[1] == 1
+                rep.oblige("SRCTEXT", "format_source-forwards", ok)
+                if not ok:
+                    rep.add(Finding("SRCTEXT", "SRCTEXT|format_source|forward",
+                                    "format_source passes a value derived from its input (%s) instead of the input "
+                                    "itself" % (str(src),), file=g.file, line=t.get("ln"), fn=g.path))
+
+
 def char_switch_table(f):
     """value(char code) -> consts in the arm, for every SwitchInt on a `char` in f."""
     out = {}
@@ -265,6 +305,27 @@ def char_switch_table(f):
             consts, aggs, callees = region_outputs(f, blocks)
             out[int(v)] = (consts, aggs, callees)
     return out
+
+
+# std escapers and the two-character escapes they can emit besides \\xNN (byte -> char after the backslash)
+_ASCII_ESCAPE_DEFAULT = {0x09: "t", 0x0D: "r", 0x0A: "n", 0x27: "'", 0x22: '"', 0x5C: "\\"}
+STD_BYTE_ESCAPERS = {
+    "ascii::escape_default": _ASCII_ESCAPE_DEFAULT,
+    "escape_ascii": _ASCII_ESCAPE_DEFAULT,
+}
+
+
+def byte_const(c):
+    """MIR u8 constant text (`10_u8`, `b'\\n'`) -> int"""
+    t = c.split("_")[0]
+    if t.isdigit():
+        return int(t)
+    if t.startswith("0x"):
+        try:
+            return int(t, 16)
+        except ValueError:
+            return None
+    return None
 
 
 def char_const(c):
@@ -373,8 +434,48 @@ def escape(F, rep, fm):
                         pass
             raw_cast = any(s["s"] == "assign" and s["rv"]["r"] == "cast" and s["rv"]["ty"] == "char"
                            for b in blocks for s in fl.stmts(b))
-            escapes = any("escape" in (c or "") for c in callees)
+            # closures built inside the arm (`.flat_map(|b| ..)`) belong to it
+            for b in blocks:
+                for st in fl.stmts(b):
+                    if st["s"] == "assign" and st["rv"]["r"] == "agg" and st["rv"].get("ak") == "closure":
+                        for q in body_and_closures(F, st["rv"]["def"]):
+                            g = F.fns[q]
+                            callees = list(callees) + [callee_name(t) or callee_generic(t) or "" for _, t in g.calls()]
+                            raw_cast = raw_cast or any(
+                                s2["s"] == "assign" and s2["rv"]["r"] == "cast" and s2["rv"]["ty"] == "char"
+                                for blk in g.blocks for s2 in blk["st"])
+            raw_cast = raw_cast or any("char as core::convert::From<u8>" in (c or "") or
+                                       (c or "").endswith("char::from_u32") for c in callees)
+            # library escapers have a fixed table (modelled below); it must be invertible by the byte lexer
+            lib = sorted({c for c in callees if c and any(c.startswith(k) or k in c for k in STD_BYTE_ESCAPERS)})
+            own = any("escape" in (c or "") and c in F.fns for c in callees)
+            escapes = own or bool(lib)
             ok = (not raw_cast) or escapes or ({0x22, 0x5C} <= ints)
+            if lib:
+                bl = F.one_fn("scan_byte_escape")
+                if rep.anchor("ESCAPE", "Lexer::scan_byte_escape", bl):
+                    btab = char_switch_table(bl)
+                    u8s = {}
+                    for code, (cs, ag, cl) in btab.items():
+                        for c, ty in cs:
+                            if ty == "u8":
+                                v = byte_const(c)
+                                if v is not None:
+                                    u8s[code] = v
+                    for name in lib:
+                        model = [m for k, m in STD_BYTE_ESCAPERS.items() if k in name][0]
+                        for byte, esc_ch in sorted(model.items()):
+                            good = u8s.get(ord(esc_ch)) == byte or (byte == 0x22 and esc_ch == '"')
+                            inst = "bytes-lib:%s:0x%02x" % (name.split("::")[-1], byte)
+                            rep.oblige("ESCAPE", inst, good, sample={"rule": "ESCAPE", "escaper": name,
+                                                                     "byte": byte, "printed_as": "\\" + esc_ch,
+                                                                     "byte_lexer_decodes_to": u8s.get(ord(esc_ch))})
+                            if not good:
+                                rep.add(Finding("ESCAPE", "ESCAPE|format_literal|%s" % inst,
+                                                "the Bytes arm prints byte 0x%02x as `\\%s` (table of %s) but the byte "
+                                                "lexer does not decode that escape back to the same single byte inside "
+                                                "a b\"...\" literal: the literal's value changes when re-lexed"
+                                                % (byte, esc_ch, name), file=fl.file, line=sw["ln"], fn=fl.path))
             rep.oblige("ESCAPE", "bytes-delimiters", ok, sample={"rule": "ESCAPE", "arm": "Literal::Bytes",
                                                                  "u8_constants_tested": sorted(ints),
                                                                  "prints_raw_char": raw_cast})
